@@ -206,6 +206,7 @@ def run(tier):
                     ck.violation('mismatched-fields kind=%s' % _gen(tag), '[%s] JSON names %r, the rule names %r' % (tag, got, sorted(e['errors'])), replay)
                     continue
             ck.cov['traces_validated_against_impl'] += 1
+    overwrite_leg(ck, P)
     builtin_leg(ck, tb, tier)
     ck.sample({'peer': P[1], 'policy_file_head': (made[1]['files'].get('made.txt') or '')[-600:]})
     ck.cov['rule'] = ('peers: boundary shapes with real names, every gss-* spelling, names over the RFC 4251 charset, random database names; for each: -M, then -P on the '
@@ -258,3 +259,21 @@ def builtin_leg(ck, tb, tier):
         else:
             ck.cov['traces_validated_against_impl'] += 1
     ck.notes.append('%d built-in policies audited against their own peer' % len(meta))
+
+
+def overwrite_leg(ck, P):
+    """--make-policy never overwrites an existing file (the audited peer must not be able to clobber a policy in use)."""
+    scs = []
+    for q in P[:6]:
+        scs.append({'argv': ['-n', '--skip-rate-test', '-M', '{tmp}/made.txt', HOST], 'servers': {(HOST, 22): server_of(q)},
+                    'files': {'made.txt': 'name = "precious"\nversion = 7\n'}, 'collect': ['made.txt']})
+    for r in runner.run_many(scs):
+        ck.evaluated()
+        if r.get('harness_error') or r.get('hang'):
+            raise common.Machinery('make-policy run failed: %r' % (r.get('harness_error') or 'hang'))
+        if r['files'].get('made.txt') != 'name = "precious"\nversion = 7\n' or 'file already exists' not in r['stdout']:
+            ck.violation('make-policy-overwrites-existing-file', '-M on an existing file: file content changed or no error reported',
+                         {'stdout': r['stdout'][-800:], 'file_after': r['files'].get('made.txt')})
+        else:
+            ck.cov['traces_validated_against_impl'] += 1
+            ck.nontrivial(('overwrite', r['stdout'][-40:]))
